@@ -70,7 +70,7 @@ def plan(pid, tier):
             return [R("strip", "strip", k[:1], n=2, maxret=2),
                     R("strip1", "strip", k[1:], n=1, maxret=1)]
         return [R("strip2", "strip", KINDS, n=2, maxret=2),
-                R("strip3", "strip", k[:2], n=3, maxret=2),
+                R("strip3", "strip", k[:1], n=3, maxret=2),
                 R("strip4", "strip", k[2:3], n=4, maxret=1),
                 R("stripr3", "strip", k[3:4], n=2, maxret=3)]
     raise vf.MachineryError("engine optionlang does not serve " + pid)
